@@ -278,7 +278,7 @@ fn rule_zero_to_const(
         match val {
             AvailableValue::OriginalRegisterWithScalar(r, i)
             | AvailableValue::RegisterWithScalar(r, i) => {
-                if r.is_const_zero() {
+                if r.is_const_zero() && available_out.get(reg) == Some(val) {
                     available_out.insert(*reg, AvailableValue::Constant(*i));
                 }
             }
@@ -289,7 +289,8 @@ fn rule_zero_to_const(
         match val {
             AvailableValue::OriginalRegisterWithScalar(r, i)
             | AvailableValue::RegisterWithScalar(r, i) => {
-                if r.is_const_zero() {
+                // only a value that survived this node may be rewritten
+                if r.is_const_zero() && memory_out.get(mem_loc) == Some(val) {
                     memory_out.insert(mem_loc.clone(), AvailableValue::Constant(*i));
                 }
             }
